@@ -1,11 +1,12 @@
 (* C09 - packet headers round-trip; bit-fields stay in lane; payload demux is right.
    Statements only; every proof is [exact lemma].
    Proved for all values: the bit-lane lemmas, the demultiplexing rules and the round trip of
-   whole frames (C09_roundtrip, over packet recipes).  IGMP, DHCP and LLDP have no model: they
-   are decided by the correspondence run only. *)
+   whole frames (C09_roundtrip, over packet recipes), and the round trips of the kinds that are
+   not reached from the Ethernet decoder: IGMP v1/v2/v3, DHCP with its options, the LLDP TLVs
+   and header, the stand-alone 802.1Q tag and IPv6 option (Model/Proto2.v). *)
 From Coq Require Import NArith List Bool.
 From Coq.Strings Require Import Byte.
-From LOF Require Import Proofs.PktRtP Base.Bytes Base.Res Model.Wire Model.Proto Proofs.ProtoP.
+From LOF Require Import Proofs.PktRtP Base.Bytes Base.Res Model.Wire Model.Proto Model.Proto2 Proofs.ProtoP Proofs.Proto2RtP.
 Import ListNotations.
 Open Scope N_scope.
 
@@ -114,3 +115,45 @@ Theorem C09_priority_tag_kept :
   let frame := zeros 12 ++ be16 33024 ++ be16 (pack_tci 5 0 0) ++ be16 35020 ++ [x01; x02] in
   match dec_eth frame with Ok t => wire t = frame | _ => False end.
 Proof. exact priority_tag_kept. Qed.
+
+(* ---- IGMP, DHCP, LLDP, 802.1Q tag, IPv6 option: for every well-formed value (fields within
+   their widths, counts equal to the number of parts present, sizes below 64 KiB) decoding the
+   encoding gives the value back and the encoding has the size the value reports ---- *)
+Theorem C09_igmp12_roundtrip : forall p, wf_igmp12 p = true ->
+  dec_igmp12 (enc_igmp12 p) = Ok p /\ blen (enc_igmp12 p) = len_igmp12 p.
+Proof. exact igmp12_rt. Qed.
+Theorem C09_igmp3_query_roundtrip : forall p, wf_igmp3q p = true ->
+  dec_igmp3q (enc_igmp3q p) = Ok p /\ blen (enc_igmp3q p) = len_igmp3q p.
+Proof. exact igmp3q_rt. Qed.
+(* a group record is decoded in place: whatever follows it *)
+Theorem C09_igmp3_record_roundtrip : forall g rest, wf_gr g = true ->
+  dec_gr (enc_gr g ++ rest) = Ok g /\ blen (enc_gr g) = size_gr g /\ len_gr g = size_gr g.
+Proof. exact gr_rt. Qed.
+Theorem C09_igmp3_report_roundtrip : forall p, wf_report p = true ->
+  dec_report (enc_report p) = Ok p /\ blen (enc_report p) = len_report p.
+Proof. exact report_rt. Qed.
+Print Assumptions C09_igmp3_report_roundtrip.
+(* DHCP: any number of options (pad options included) in any order; the end option is written
+   by the encoder and consumed by the decoder *)
+Theorem C09_dhcp_roundtrip : forall p, wf_dhcp p = true ->
+  exists b, enc_dhcp p = Ok b /\ dec_dhcp b = Ok p /\ blen b = len_dhcp p.
+Proof. exact dhcp_rt. Qed.
+Print Assumptions C09_dhcp_roundtrip.
+Theorem C09_lldp_tlv_roundtrip : forall t rest, wf_tlv t = true ->
+  dec_tlv (enc_tlv t ++ rest) = (3 + t_len t, false, t) /\ blen (enc_tlv t) = 3 + t_len t.
+Proof. exact tlv_rt. Qed.
+Theorem C09_lldp_ttl_roundtrip : forall t rest, wf_ttl t = true ->
+  dec_ttl (enc_ttl t ++ rest) = (4, false, t) /\ blen (enc_ttl t) = 4.
+Proof. exact ttl_rt. Qed.
+Theorem C09_lldp_roundtrip : forall p, wf_lldp p = true ->
+  dec_lldp (enc_lldp p) = (blen (enc_lldp p), false, p) /\ blen (enc_lldp p) = len_lldp p.
+Proof. exact lldp_rt. Qed.
+Print Assumptions C09_lldp_roundtrip.
+Theorem C09_vlan_roundtrip : forall v, wf_vlan v = true -> dec_vlan (enc_vlan v) = Ok v /\ blen (enc_vlan v) = 4.
+Proof. exact vlan_rt. Qed.
+Theorem C09_ipv6_option_roundtrip : forall o rest, wf_v6opt o = true ->
+  dec_v6opt (enc_v6opt o ++ rest) = Ok o /\ blen (enc_v6opt o) = len_v6opt o.
+Proof. exact v6opt_rt. Qed.
+Theorem C09_record_kinds_nonvacuous :
+  wf_gr ex_gr = true /\ wf_report ex_report = true /\ wf_igmp3q ex_query = true /\ wf_dhcp ex_dhcp = true /\ wf_lldp ex_lldp = true.
+Proof. exact examples_wf. Qed.
